@@ -167,6 +167,9 @@ func extractTypesFromTuple(tuple *types.Tuple, isVariadic bool) []InterfaceType 
 // convertTypesToInterfaceType converts types.Type to InterfaceType
 func convertTypesToInterfaceType(t types.Type) InterfaceType {
 	// Handle pointer
+	// A type alias denotes the type it is declared as
+	t = types.Unalias(t)
+
 	if ptr, ok := t.(*types.Pointer); ok {
 		inner := convertTypesToInterfaceType(ptr.Elem())
 		if inner.IsPointer {
